@@ -3,7 +3,7 @@ CONSTANTS
   NPods = 4
   LimChoices = {0, 1, 2}
   WlPairs <- WlQuick
-  ReadyPods = {"p1", "p2"}
+  ReadyPods = {"p1"}
   SkipChoices = {FALSE}
   GateChoices <- GatesNone
 INVARIANT TypeOK
